@@ -587,7 +587,13 @@ func (e *VerifEtcd) Quiesce(expect []string, timeout time.Duration) bool {
 		}
 		if ok {
 			for _, st := range lives {
-				st.ch <- clientv3.WatchResponse{Header: etcdserverpb.ResponseHeader{Revision: e.rev}}
+				// a progress response: its header revision never runs ahead of what the stream has been
+				// sent (etcd sends progress notifications to synced watchers only)
+				hr := st.next - 1
+				if hr > e.rev {
+					hr = e.rev
+				}
+				st.ch <- clientv3.WatchResponse{Header: etcdserverpb.ResponseHeader{Revision: hr}}
 			}
 		}
 		e.mu.Unlock()
